@@ -50,6 +50,7 @@ type Unit struct {
 	Validate  int      `json:"validate"` // number of translator-validation vectors (quick)
 	NoValidate bool    `json:"no_validate"`
 	NoMerge   bool     `json:"no_merge"`
+	GroupOrder string  `json:"group_order"` // prime order of the modelled bn256 groups (decimal); default: the real BN254 order
 	Race      bool     `json:"race"` // happens-before data race detection on repository code
 	StressRuns int     `json:"stress_runs"` // native runs attempted to reproduce an engine-confirmed schedule-dependent violation
 	NoDivAxiom bool    `json:"no_div_axiom"`
